@@ -55,7 +55,7 @@ theorem PosStep.parse_marshal {σ : Schema} {O : Oracles} {m : Msg}
     obtain ⟨⟨⟨hvs, hdd⟩, hfl⟩, hdm⟩ := hty
     subst hvs hdd
     have hfl' : matchFlags d = {} := by simpa using hfl
-    by_cases hem : s.mm.emits (m.get s.field) (m.get s.mm.guard) = true
+    by_cases hem : s.mm.emits (m.get s.field) = true
     · unfold OptStep.residual at hsres
       rw [if_pos hem, Bool.and_eq_true] at hsres
       have hval := hsres.1
@@ -122,7 +122,7 @@ theorem encGet_ok {d : Dict} {key : Str} {valid : WVal → Bool} {v : WVal}
   unfold encGet
   simp only [hget]
   rcases hv with h | h
-  · cases v <;> simp_all [WVal.isNull, WVal.truthy]
+  · cases v <;> simp_all [WVal.isNull]
   · simp [h]
 
 end Abverif.Wamp
